@@ -1385,6 +1385,12 @@ impl Tree {
                 root_to_source.len().min(root_to_target.len())
             });
 
+        if cursor == 0 {
+            return Err(TreeError::GeneralError(
+                "The nodes do not have a common ancestor",
+            ));
+        }
+
         Ok(root_to_source[cursor - 1])
     }
 
